@@ -30,9 +30,14 @@ DecToRat(d) ==
 MathExact == {"ROUND", "ROUNDUP", "ROUNDDOWN", "TRUNC", "INT", "EVEN", "CEILING", "FLOOR", "MOD", "ABS", "SIGN", "FACT",
               "FACTDOUBLE", "ISEVEN", "ISODD", "SQRT", "POWER"}
 MathBridge(f, a) ==
-    LET fe == FirstErr(a) IN
-    IF fe.t = "err" THEN fe
-    ELSE IF \E i \in 1..Len(a) : a[i].t \in {"open", "anyerr", "arr"} THEN Open
+    LET fe == FirstErr(a)
+        \* an argument that is no error value but fails to convert, standing LEFT of the first error value: which of the two
+        \* errors is reported is left open (as for the operators)
+        E == {i \in 1..Len(a) : a[i].t = "err"}
+        badBefore == E # {} /\ \E j \in 1..Len(a) : (\A i \in E : j < i) /\ a[j].t \in {"txt", "bool", "blank", "num"} /\ ToNum(a[j]).t \in {"err", "open"}
+    IN
+    IF \E i \in 1..Len(a) : a[i].t \in {"open", "anyerr", "arr"} THEN Open
+    ELSE IF fe.t = "err" THEN (IF badBefore THEN AnyErr ELSE fe)
     ELSE LET ns == [i \in 1..Len(a) |-> ToNum(a[i])] IN
          IF \E i \in 1..Len(a) : ns[i].t = "err" THEN Err("#VALUE!")
          ELSE IF \E i \in 1..Len(a) : ns[i].t # "num" THEN Open
